@@ -55,6 +55,7 @@ PAIRS = [
     ("fft64_vmp_apply_dft", 1, 12, 3, 9, False, 200),
 ]
 NOPS = 10
+SCALE = 8  # calibrated once: quick tier ~30-40 s wall on 16 cores
 
 
 def _has_avx512f():
@@ -75,14 +76,14 @@ def _jobs(tier):
             jobs.append(dict(sub="pairs", count=4, fix=dict(pair=pid, lg=lgmin)))  # counted as skipped:no-avx512f
             continue
         for lg in range(lgmin, lgmax + 1):
-            jobs.append(dict(sub="pairs", count=geo(lg, base, 6, 12) * mult, fix=dict(pair=pid, lg=lg)))
+            jobs.append(dict(sub="pairs", count=geo(lg, base * SCALE, 6, 12 * SCALE) * mult, fix=dict(pair=pid, lg=lg)))
     for k in range(1, 15):
         for op in range(NOPS):
             product = op <= 2 or op == 9
             if product and k > 12:
                 continue
             base = 60 if product else 120
-            jobs.append(dict(sub="api_masks", count=geo(k, base, 6, 6) * mult, fix=dict(k=k, op=op)))
+            jobs.append(dict(sub="api_masks", count=geo(k, base * SCALE, 6, 6 * SCALE) * mult, fix=dict(k=k, op=op)))
     return jobs
 
 
